@@ -3,6 +3,7 @@ Driver.WireSuite — suite `wire`: parse a case, run Model.Wire, print the
 observation in the same canonical form as harness/src/suites/wire.rs.
 -/
 import Driver.WireInst
+import VarlinkVerif.Pred.Wire
 
 namespace VV
 open Sx
@@ -133,9 +134,16 @@ def ofStatus : Status → Sx
   | .err => .atom "err"
   | .upgraded i => .list [.atom "up", strAtom i]
 
-def obsSx (st : Status) (out : List Reply) (tail rest seen : Bytes) : Sx :=
+def ofRequest (r : Request) : Sx :=
+  .list [.atom "req", ofOptBool r.more, ofOptBool r.oneway, ofOptBool r.upgrade, strAtom r.method,
+         ofOptJson r.parameters]
+
+def obsSx (st : Status) (out : List Reply) (tail rest seen : Bytes)
+    (calls : List (String × String × Request)) (ref : Sx) : Sx :=
   .list [.atom "obs", ofStatus st, .list (.atom "out" :: out.map ofReply),
-         bytesAtom tail, bytesAtom rest, bytesAtom seen]
+         bytesAtom tail, bytesAtom rest, bytesAtom seen,
+         .list (.atom "calls" :: calls.map fun (n, d, r) => .list [strAtom n, strAtom d, ofRequest r]),
+         ref]
 
 def bufCap : Nat := 8192
 
@@ -153,14 +161,120 @@ def parseWireCase : Sx → Option WireCase
     pure { mode, svc, chunks := cs, dec }
   | _ => none
 
+/-- calls that reach a *scripted* interface (the generated one records nothing) -/
+def modelCalls (svc : Service) (fs : List Frame) (n : Nat) : List (String × String × Request) :=
+  (fs.take n).filterMap fun f => match f with
+    | .req r =>
+      match ifaceOf r.method with
+      | some i =>
+        if i == svcName then none
+        else match svc.lookup i with
+          | some ifc => if ifc.name == vtestName then none else some (ifc.name, ifc.desc, r)
+          | none => none
+      | none => none
+    | .bad => none
+
 def runWire (c : WireCase) : Sx :=
+  let total := c.chunks.flatten
+  let dec := decOf c.dec
+  let fs := (frames total).1.map dec
+  let o := serve consts c.svc fs
+  let calls := modelCalls c.svc fs o.groups.length
+  let rh := handle consts c.svc dec (chop bufCap total)
+  let ref : Sx := .list [.atom "ref", ofStatus rh.status, .list (.atom "out" :: rh.groups.flatten.map ofReply),
+    bytesAtom rh.tail, bytesAtom rh.rest.flatten]
   if c.mode == "whole" then
     let reads := c.chunks.flatMap (chop bufCap)
-    let h := handle consts c.svc (decOf c.dec) reads
-    obsSx h.status h.groups.flatten h.tail h.rest.flatten []
+    let h := handle consts c.svc dec reads
+    obsSx h.status h.groups.flatten h.tail h.rest.flatten [] calls ref
   else
-    let st := feed consts c.svc (decOf c.dec) bufCap c.chunks
-    obsSx st.status st.out st.tail [] st.seen
+    let st := feed consts c.svc dec bufCap c.chunks
+    obsSx st.status st.out st.tail [] st.seen calls ref
+
+/-! ### predicates on the implementation's observation -/
+
+def parseStatus : Sx → Option Status
+  | .atom "eof" => some .eof
+  | .atom "err" => some .err
+  | .list [.atom "up", i] => (asStr i).map .upgraded
+  | _ => none
+
+def parseReplies (l : List Sx) : List Reply × Bool :=
+  l.foldr (fun x (acc : List Reply × Bool) =>
+    match x with
+    | .list [.atom "r", c, e, p] =>
+      match asOptBool c, asOptStr e, asOptJson p with
+      | some c, some e, some p => ({ continues := c, error := e, parameters := p } :: acc.1, acc.2)
+      | _, _, _ => (acc.1, true)
+    | _ => (acc.1, true)) ([], false)
+
+def parseCall : Sx → Option (String × String × Request)
+  | .list [n, d, r] => do
+    let n ← asStr n
+    let d ← asStr d
+    match ← parseReq r with
+    | .req r => pure (n, d, r)
+    | .bad => none
+  | _ => none
+
+def parseObs : Sx → Option WireObs
+  | .list (.atom "panic" :: _) => some { panicked := true }
+  | .list [.atom "obs", st, .list (.atom "out" :: out), tail, rest, seen, .list (.atom "calls" :: calls),
+           .list [.atom "ref", rst, .list (.atom "out" :: rout), rtail, rrest]] => do
+    let st ← parseStatus st
+    let (o, raw) := parseReplies out
+    let tail ← asBytes tail
+    let rest ← asBytes rest
+    let seen ← asBytes seen
+    let calls ← calls.mapM parseCall
+    let rst ← parseStatus rst
+    let (ro, _) := parseReplies rout
+    let rtail ← asBytes rtail
+    let rrest ← asBytes rrest
+    pure { status := st, out := o, rawOut := raw, tail, rest, seen, calls,
+           refStatus := rst, refOut := ro, refTail := rtail, refRest := rrest }
+  | _ => none
+
+def cfgOfSx : Sx → Option WireCfg
+  | .list [.atom "svc", v, p, ver, u, .list (.atom "ifaces" :: is)] => do
+    let v ← asStr v
+    let p ← asStr p
+    let ver ← asStr ver
+    let u ← asStr u
+    let is ← is.mapM fun i => match i with
+      | Sx.list [Sx.atom "script", n, d] => do
+        let n ← asStr n
+        let d ← asStr d
+        pure ("script", n, d)
+      | Sx.list [Sx.atom "gen"] => some ("gen", vtestName, vtestDescText)
+      | _ => none
+    pure { vendor := v, product := p, version := ver, url := u, ifaces := is }
+  | _ => none
+
+def wirePred (prop : String) (caseLine obsLine : String) : String :=
+  match parse caseLine, parse obsLine with
+  | some cs, some os =>
+    match cs with
+    | .list [.atom "wire", _, svcSx, .list (.atom "reads" :: chunks), decSx] =>
+      match cfgOfSx svcSx, chunks.mapM asBytes, parseDec decSx, parseObs os with
+      | some cfg, some chunks, some dec, some obs =>
+        let total := chunks.flatten
+        let fs := (frames total).1.map (decOf dec)
+        let v : Verdict :=
+          match prop with
+          | "C01" => P_C01 cfg fs obs
+          | "C02" => P_C02 cfg total obs
+          | "C03" => P_C03 cfg fs obs
+          | "C04" => P_C04 cfg fs obs
+          | "C05" => P_C05 cfg fs obs
+          | "C06" => P_C06 cfg fs obs
+          | _ => some "unknown-property"
+        match v with
+        | none => "ok"
+        | some r => "fail " ++ r
+      | _, _, _, _ => "fail unparsable-case-or-observation"
+    | _ => "fail unparsable-case"
+  | _, _ => "fail unparsable-line"
 
 def wireLine (line : String) : String :=
   match parse line with
